@@ -183,7 +183,7 @@ def run_case(case):
     # ---- responses
     sent = res.sent.get(0, [])
     try:
-        parsed = [refframe.parse_one(framing, s) for s in sent]
+        parsed = [p for s in sent for p in refframe.parse_many(framing, s)]
     except refframe.FrameError as e:
         parsed = None
         discs.append(Disc('not-a-frame', '%s/%s: %s' % (fe, framing, e)))
